@@ -381,6 +381,43 @@ def runtime_part(run, tier, seed):
                     if not (r is t and t.data.dtype == dt and t.shape == (3, 4)):
                         run.violation(NAME + name + ".keeps_identity_shape_dtype_flag", "%s on a %s tensor with %s arguments: dtype became %s" % (name, np.dtype(dt).name, cname, t.data.dtype),
                                       key={"initialiser": name, "dtype": np.dtype(dt).name, "argument_type": cname}, replay={})
+        # memory LAYOUT: a tensor whose array is a transposed view, Fortran-ordered or a strided slice is filled like any other (every element drawn / set; nothing of the
+        # previous content, and no uninitialised memory, survives)
+        lay_fillers = [("uniform_", lambda t: init.uniform_(t, 1.0, 2.0), (1.0, 2.0), True), ("normal_", lambda t: init.normal_(t, 5.0, 0.25), (2.5, 7.5), True),
+                       ("constant_", lambda t: init.constant_(t, 3.5), (3.5, 3.5), False), ("ones_", init.ones_, (1.0, 1.0), False), ("zeros_", init.zeros_, (0.0, 0.0), False),
+                       ("xavier_uniform_", lambda t: init.xavier_uniform_(t, 1.7), (-1.7 * math.sqrt(6.0 / 9), 1.7 * math.sqrt(6.0 / 9)), True),
+                       ("xavier_normal_", lambda t: init.xavier_normal_(t, 1.7), (-17 * math.sqrt(2.0 / 9), 17 * math.sqrt(2.0 / 9)), True),
+                       ("kaiming_uniform_", lambda t: init.kaiming_uniform_(t, 0, "fan_in", "relu"), (-math.sqrt(2.0) * math.sqrt(3.0 / 4), math.sqrt(2.0) * math.sqrt(3.0 / 4)), True),
+                       ("kaiming_normal_", lambda t: init.kaiming_normal_(t, 0, "fan_out", "relu"), (-10 * math.sqrt(2.0 / 5), 10 * math.sqrt(2.0 / 5)), True)]
+        layouts = [("transposed view", lambda dt: np.full((4, 5), np.nan, dtype=dt).T), ("Fortran order", lambda dt: np.asfortranarray(np.full((5, 4), np.nan, dtype=dt))),
+                   ("strided slice", lambda dt: np.full((10, 8), np.nan, dtype=dt)[::2, ::2]), ("library transpose", None)]
+        for dt in (np.float32, np.float64):
+            for lname, mk in layouts:
+                for name, fn, (lo, hi), rnd in lay_fillers:
+                    if mk is None:
+                        t = Tensor(np.full((4, 5), np.nan, dtype=dt)).transpose(0, 1)
+                    else:
+                        t = Tensor(mk(dt))
+                    if t.shape != (5, 4) or t.data.flags["C_CONTIGUOUS"]:
+                        continue
+                    run.rt(("layout", name, lname, np.dtype(dt).name))
+                    try:
+                        r = fn(t)
+                    except Exception as e:
+                        run.violation(NAME + name + ".completes", "%s on a %s tensor (%s) raised %s: %s" % (name, np.dtype(dt).name, lname, type(e).__name__, e),
+                                      key={"initialiser": name, "layout": lname}, replay={})
+                        continue
+                    d = np.asarray(t.data)
+                    bad = None
+                    if not (r is t and t.shape == (5, 4) and d.dtype == dt):
+                        bad = "identity / shape / dtype changed (shape %s dtype %s)" % (t.shape, d.dtype)
+                    elif not np.all(np.isfinite(d)) or not np.all((d >= lo - 1e-6) & (d <= hi + 1e-6)):
+                        bad = "%d of %d elements are outside what the initialiser can produce (nan, previous content or uninitialised memory)" % (int((~(np.isfinite(d) & (d >= lo - 1e-6) & (d <= hi + 1e-6))).sum()), d.size)
+                    elif rnd and len(np.unique(d)) < d.size // 2:
+                        bad = "only %d distinct values among %d drawn elements" % (len(np.unique(d)), d.size)
+                    if bad:
+                        run.violation(NAME + name + ".fills_every_element", "%s on a %s tensor whose array is a %s: %s" % (name, np.dtype(dt).name, lname, bad),
+                                      key={"initialiser": name, "layout": lname, "dtype": np.dtype(dt).name}, replay={})
         for dt in (np.float32, np.float64):
             for shape in shapes + [(5,)]:
                 for name, fn, exp in fillers:
